@@ -14,6 +14,7 @@ RULE = ("one case = one operation (int/slice/mask/int-array selection, take with
 ASSUMPTIONS = ["assignment values contain no NaN (pandas' from_pandas convention turns NaN into null at the input boundary)",
                "integer-array assignment keys address distinct positions (the property's quantifier)"]
 CORRESPONDENCE = "m_getitem_*/m_take/m_concat/m_dropna/m_pickle/m_setitem (ExtArray.v) vs NestedExtensionArray"
+EXTRA_IMPORTS = "FrameRows"
 LAYOUTS = [l for l in gen.LAYOUTS if l != "missing_hidden"] + ["history", "history"]
 
 
